@@ -150,7 +150,7 @@ def run_real(pipe, case):
 
 
 def gen(rng: random.Random, tier: str):
-    n = {"quick": 1500, "thorough": 40000}[tier]
+    n = {"quick": 1500, "thorough": 200000}[tier]
     for _ in range(n):
         yield gen_case(rng)
 
@@ -211,4 +211,4 @@ SPEC = CheckSpec(
               "LK.Pipe.C02_PipelineLog_exec_at_most_once", "LK.Pipe.C02_PipelineLog_exec_only_needed", "LK.Pipe.C02_PipelineLog_forceLazy_unselected"],
     correspondence_ops=["c02.run"],
     nontrivial_rule="distinct graphs reaching ≥1 of: node requested twice, lazy edge, raising component, unwired parameter, shared sub-expression, later-declared source, each error class, as-is ≠ repaired",
-    budgets={"quick": 1500, "thorough": 40000}, gen=gen, run=run, shrink=shrink)
+    budgets={"quick": 1500, "thorough": 200000}, gen=gen, run=run, shrink=shrink)
